@@ -108,6 +108,10 @@ def run(tier, seed):
         runs.append(("free_%d" % i, [fxa, "conc", "--mode", "free", "--out", os.path.join(rd, "asanf_%d.ndjson" % i), "--dir", shm,
                                      "--seed", str(rng.randrange(1 << 30)), "--threads", "4", "--ops", "30", "--keys", "3",
                                      "--rounds", "10", "--pers", str(i % 2), "--blocks", "40", "--cache", str((i // 2) % 2)]))
+    for i in range(3 if tier == "quick" else 12):   # scans against continuous replacement, scanners stalled inside their calls
+        runs.append(("scanstorm_%d" % i, [fxa, "conc", "--mode", "scanstorm", "--out", os.path.join(rd, "asans_%d.ndjson" % i),
+                                          "--seed", str(rng.randrange(1 << 30)), "--millis", "2500" if tier == "quick" else "6000",
+                                          "--keys", str([16, 4, 64][i % 3]), "--stallmask", str([63, 31, 127][i % 3])]))
     for i in range(6 if tier == "quick" else 40):
         d = os.path.join(shm, "cr%d" % i)
         os.makedirs(d, exist_ok=True)
@@ -143,6 +147,9 @@ def run(tier, seed):
         elif rc < 0 or rc in (134, 139):
             p = v.save_replay("c20", tag + ".crash.txt", "CMD: %s\nrc=%s\n%s" % (" ".join(cmd), rc, se[-1500:]))
             viol.append({"what": "abnormal termination (rc=%s) of %s" % (rc, tag), "replay": p, "key": "abort"})
+        elif rc == 4:
+            p = v.save_replay("c20", tag + ".foreign.txt", "CMD: %s\n%s" % (" ".join(cmd), so[-500:]))
+            viol.append({"what": "a scan returned a key with another key's bytes in %s: %s" % (tag, so[-200:]), "replay": p, "key": "foreign value"})
         elif rc == 3:
             p = v.save_replay("c20", tag + ".hang.txt", "CMD: %s\n%s" % (" ".join(cmd), so[-500:]))
             viol.append({"what": "hang in %s" % tag, "replay": p, "key": "hang"})
